@@ -25,6 +25,7 @@ Definition dispatch (id : Z) (s : list Z) : list Z :=
   else if id =? 300 then run_P chk_bm25hist s
   else if id =? 400 then run_P chk_metahist s
   else if id =? 401 then run_P chk_bsi s
+  else if id =? 402 then run_P chk_ctor s
   else if id =? 500 then run_P chk_hybridhist s
   else if id =? 800 then run_P chk_storehist s
   else if id =? 1700 then run_P chk_lockhist s
